@@ -96,6 +96,8 @@ fn spec_flags(sp: &FormatSpec<'_>) -> u8 {
 ///  6  implicit argument resolved to a different position (parse_fmt_string)
 ///  8  std rejects, but `format()` takes the whole literal as one bare placeholder: it would be delegated without
 ///     ever reaching `format_args!`, i.e. silently accepted
+/// 10  the literal starts with a placeholder std accepts, but `format()` - which decides whether the whole attribute is one
+///     bare, delegated placeholder - consumed a different extent than that placeholder (e.g. swallowed trailing text)
 ///  9  (observation only, not a violation) std rejects, derive_more's parser accepts; the literal still reaches
 ///     `format_args!`, which rejects it
 pub fn compare(s: &str, base: *const u8, digest: &mut [u8; 64]) -> u32 {
@@ -132,6 +134,16 @@ pub fn compare(s: &str, base: *const u8, digest: &mut [u8; 64]) -> u32 {
             }
             if fs.formats.len() != r.n || nsum != r.n {
                 return 2;
+            }
+            if r.n >= 1 && r.first_start == 0 {
+                match format(s) {
+                    Some((rest, _)) => {
+                        if rest.len() != s.len() - r.first_end {
+                            return 10;
+                        }
+                    }
+                    None => return 10,
+                }
             }
             let mut i = 0;
             while i < fs.formats.len() && i < MAXPH {
